@@ -365,21 +365,50 @@ def rule_N7(ctx: Ctx) -> None:
     r = X.returns_of(f.node)
     enum = ctx.index.cls(f"{MT}.TokenizationMode")
     members = set(enum.assigns)
-    ok = None
+    from sa import dtable as DT
+
+    p1 = f.params()[1]
+    rows = DT.table(f.node, {"given_a_tokenizer": [f"isinstance({p1}, MazeTokenizer)"]})
     slot = {"members": sorted(members)}
-    if len(r) == 1 and isinstance(r[0].value, ast.Subscript) and isinstance(r[0].value.value, ast.Dict):
-        keys = {X.U(k).split(".")[-1] for k in r[0].value.value.keys}
-        slot["mapped"] = sorted(keys)
-        ok = keys == members and X.U(r[0].value.slice) == f.params()[1]
-        vals = {X.U(k).split(".")[-1]: X.U(v) for k, v in zip(r[0].value.value.keys, r[0].value.value.values)}
-        ok = ok and vals.get("AOTP_UT_uniform") == "MazeTokenizerModular()" and vals.get("AOTP_UT_rasterized") == "MazeTokenizerModular()" \
-            and X.same_expr(ast.parse(vals.get("AOTP_CTT_indexed", "0"), mode="eval").body, "MazeTokenizerModular(prompt_sequencer=PromptSequencers.AOTP(coord_tokenizer=CoordTokenizers.CTT()))")
-    ctx.judge(f, ok, slot, "from_legacy maps every TokenizationMode member: the two UT modes to the default tokenizer, CTT_indexed to AOTP(coord_tokenizer=CTT())",
+
+    def expected(a):
+        def pred(o):
+            if o[0] != "return" or not (isinstance(o[1], ast.Subscript) and isinstance(o[1].value, ast.Dict)):
+                return False
+            d_ = o[1].value
+            keys = {X.U(k).split(".")[-1] for k in d_.keys}
+            slot["mapped"] = sorted(keys)
+            vals = {X.U(k).split(".")[-1]: v for k, v in zip(d_.keys, d_.values)}
+            key_ok = X.U(o[1].slice) == (f"{p1}.tokenization_mode" if a["given_a_tokenizer"] else p1)
+            return keys == members and key_ok and X.same_expr(vals.get("AOTP_UT_uniform"), "MazeTokenizerModular()") \
+                and X.same_expr(vals.get("AOTP_UT_rasterized"), "MazeTokenizerModular()") \
+                and X.same_expr(vals.get("AOTP_CTT_indexed"), "MazeTokenizerModular(prompt_sequencer=PromptSequencers.AOTP(coord_tokenizer=CoordTokenizers.CTT()))")
+        return pred
+    ok, rep = DT.judge_table(rows, expected)
+    slot["table"] = rep
+    ctx.judge(f, ok, slot, "from_legacy maps every TokenizationMode member: the two UT modes to the default tokenizer, CTT_indexed to AOTP(coord_tokenizer=CTT()); a legacy tokenizer is mapped through its mode",
               "a legacy mode has no (or the wrong) modular equivalent")
     le = ctx.index.func(f"{MT}.MazeTokenizerModular.is_legacy_equivalent")
-    r = X.returns_of(le.node)
-    ok = len(r) == 1 and X.same_expr(r[0].value, "any([self == MazeTokenizerModular.from_legacy(tok_mode) for tok_mode in TokenizationMode])")
-    ctx.judge(le, ok, {"returns": X.U(r[0].value)[:140] if r else None}, "a tokenizer is legacy-equivalent iff it equals the image of some legacy mode")
+
+    def le_call(ev, node, env):
+        d = dotted_of(node.func) or ""
+        if d.endswith("from_legacy") and len(node.args) == 1:
+            return ("image", ev.ev(node.args[0], env))
+        return NotImplemented
+    modes = ["mode1", "mode2", "mode3"]
+    bad, unk = [], []
+    for self_v, want in [(("image", m_), True) for m_ in modes] + [(("image", "no such mode"), False), ("another tokenizer", False)]:
+        res = _abstract_run(le, {le.params()[0]: self_v, "TokenizationMode": list(modes)}, le_call)
+        if res[0] == "unknown":
+            unk.append(res[1])
+        elif res != ("value", want):
+            bad.append({"self": repr(self_v), "found": repr(res[1]), "expected": want})
+    uses_mapping = any(isinstance(c_, ast.Call) and (dotted_of(c_.func) or "").endswith("from_legacy") for c_ in ast.walk(le.node))
+    if unk and not bad and not uses_mapping:
+        bad.append({"reason": "the legacy mapping (from_legacy) is not consulted at all: equivalence is decided by another criterion", "undecided": unk[0]})
+    ctx.judge(le, False if bad else None if unk else True, {"deviations": bad[:3], "undecided": unk[:2]},
+              "a tokenizer is legacy-equivalent iff it equals the image of some legacy mode",
+              "a tokenizer that is not the image of a legacy mode reports itself legacy-equivalent (or an image does not)")
     model = DataclassModel(ctx.index, ctx.deps)
     c = ctx.index.cls(f"{MT}.MazeTokenizerModular")
     eq = model.effective(c, "__eq__")
